@@ -106,3 +106,60 @@ def stats(case, obs, dist):
     dist['cls_' + case['cls']] = dist.get('cls_' + case['cls'], 0) + 1
     if _malformed(case):
         dist['malformed_cases'] = dist.get('malformed_cases', 0) + 1
+
+
+def extra_checks(tier, seed):
+    """hierarchical configurations (nested, parallel, transitions inherited from ancestors, declared globally or
+    inside state definitions): (may_trigger(e); trigger(e)) pairs with deterministic conditions on the synchronous
+    hierarchical classes, compared with the Coq hierarchical engine (Hsm.can_trigger / trigger_event) and checked
+    by the implementation-only oracle (may == the trigger executed a transition; no state change; only
+    prepare-stage and condition callbacks)."""
+    import hsm
+    import framework as F
+    n = 400 if tier == 'quick' else 12000
+    cases = []
+    for i in range(n):
+        rng = random.Random('C12h-%d-%d' % (seed, i))
+        c = hsm.gen_case(rng, hist_len=1, p_parallel=0.35)
+        c['env'] = dict(default=c['env']['default'], bypos={}, bycb={k: v for k, v in c['env']['bycb'].items() if v[1] is None})
+        ne = 1 + max([e for e, _ in c['machine']['events']] + [e for _, d in hsm.all_defs(c['machine']) for e, _ in d['events']] + [0])
+        hist = []
+        for j in range(rng.randint(1, 4)):
+            e = rng.randrange(ne)
+            hist.append((1, e, 100 + 2 * j))
+            hist.append((0, e, 101 + 2 * j))
+        c['history'] = hist
+        c['cls'] = ['HierarchicalMachine', 'LockedHierarchicalMachine'][i % 2]
+        cases.append(c)
+    mo, io = hsm.run_pairs(cases)
+    bad = [(c, m, i) for c, m, i in zip(cases, mo, io) if m != i]
+    may_true = may_false = 0
+    ofail = None
+    for c, i in zip(cases, io):
+        if not isinstance(i, list) or i[0] != 1:
+            continue
+        steps = i[2]
+        for j in range(0, len(steps) - 1, 2):
+            may_items, may_res, may_cfg = steps[j]
+            _, trig_res, _ = steps[j + 1]
+            before = i[1] if j == 0 else steps[j - 1][2]
+            if may_res[0] == 0:
+                may_true += 1 if may_res[1] else 0
+                may_false += 0 if may_res[1] else 1
+                msg = None
+                if may_cfg != before:
+                    msg = 'may_ changed the configuration'
+                elif any(it[0] not in (0, 1, 2, 3, 12) for it in may_items):
+                    msg = 'may_ ran a callback outside the prepare/condition stages'
+                elif bool(may_res[1]) != (trig_res == [0, True]):
+                    msg = 'may_ answered %s but the trigger result was %s' % (may_res[1], trig_res)
+                if msg and ofail is None:
+                    ofail = (c, i, 'call %d: %s' % (j, msg))
+    detail = dict(cases=len(cases), disagreements=len(bad), may_true=may_true, may_false=may_false)
+    if ofail:
+        c, i, msg = ofail
+        return [('hierarchical_may', False, detail, dict(kind='oracle', stream='hierarchical', case=c, impl_obs=i, failing_clause=msg))]
+    if bad:
+        c, m, i = bad[0]
+        return [('hierarchical_may', False, detail, dict(kind='counterexample', stream='hierarchical', case=c, model_obs=m, impl_obs=i))]
+    return [('hierarchical_may', True, detail, {})]
